@@ -6,7 +6,7 @@ from vlib import Corr, Search, Failure
 
 ID = 'C19'
 LEVEL = 'proof'
-PROPS = ['Props/C19.v', 'Findings/C19.v']
+PROPS = ['Props/C19.v']
 TRUSTED = [
     'hand-written model Model/C19Txn.v of SQLiteProvider (acquire_lock, release_lock, set_transaction_mode, commit, rollback, drop, release), '
     'SQLitePool._connect, Pool.connect/release/drop, DBAPIProvider.connect/commit/rollback/release/drop/execute, SessionCache.connect/reconnect/'
